@@ -439,7 +439,9 @@ class SStr(Proxy):
             return (self._mk(z3.SubString(self.t, 0, i)), sep if not isinstance(sep, SStr) else sep,
                     self._mk(z3.SubString(self.t, i + z3.Length(z), n)))
         empty = b"" if self.is_bytes else ""
-        return (self, empty, empty)
+        # the tail stays a proxy: callers go on slicing it with symbolic indices (rest[:n]), which a real
+        # bytes/str object would refuse
+        return (self, empty, self._mk(z3.StringVal("")))
 
     def _uf(self, name):
         f = z3.Function(name, z3.StringSort(), z3.StringSort())
